@@ -32,8 +32,10 @@ import Thanos.Model.CompactSync
   C35   ship.run <cfg> <blocks> <steps>
           cfg    = <uploadCompacted 0|1><allowOutOfOrderUploads 0|1>
           blocks = <id>:<minT>:<maxT>:<level>:<numSamples>:<indexSize>:<seg>,<seg>,…;…   (sorted by minT, distinct)
-          steps  = s:<k> | s:x (one Sync with crash budget) | t:<j> (one Sync whose j-th bucket call fails) | rm (shipper file lost) ; …
-        answer: <status>[<mutating calls>]file=<ids|none> … => b<id>{<listing>} …
+          steps  = s:<k> | s:x (one Sync with crash budget) | t:<j> (one Sync whose j-th bucket call fails), each optionally
+                   followed by @<n>:<v> (after n mutating calls of that Sync the dynamic labels callback returns v) |
+                   rm (shipper file lost) | L:<v> (dynamic callback value) | SL:<v> (SetLabels) | N (new Shipper instance) ; …
+        answer: <status>[<mutating calls>]file=<ids|none> … => b<id>@<label version of the bucket meta.json | ->{<listing>} …
 
   C33   c33.fault <layout> <lister> <call> <sync> <readKind> <n> <outcome>     (layout, lister, call, sync, n: for the Go side)
           readKind = listing | exists-meta | get-meta | get-deletion-mark | get-no-compact-mark
@@ -221,43 +223,84 @@ def parseLBlock (t : String) : Option Shipper.LBlock :=
     pure ⟨i, mn, mx, lv, ns, ⟨(List.range segs.length).zip segs |>.map (fun p => (segName p.1, p.2)), ix⟩⟩
   | _ => none
 
-def parseCfg (s : String) : Option Shipper.Cfg :=
+def parseFlags (s : String) : Option (Bool × Bool) :=
   match s.toList with
-  | [a, b] => if (a = '0' ∨ a = '1') ∧ (b = '0' ∨ b = '1') then some ⟨a = '1', b = '1'⟩ else none
+  | [a, b] => if (a = '0' ∨ a = '1') ∧ (b = '0' ∨ b = '1') then some (a = '1', b = '1') else none
   | _ => none
 
 inductive ShipStep where
-  | sync (f : Shipper.Fault)
+  | sync (f : Shipper.Fault) (sw : Option (Nat × Nat))   -- sw: the dynamic label value switches during this Sync
   | rm
+  | dyn (v : Nat)        -- L:<v>  the dynamic labels callback now returns v
+  | setLabels (v : Nat)  -- SL:<v> Shipper.SetLabels on the running instance
+  | restart              -- N      a new Shipper instance (dynamic callback again)
+
+def parseSwitch (t : String) : Option (Nat × Nat) :=
+  match splitChar ':' t with
+  | [n, v] => do
+    let n ← parseNat? n
+    let v ← parseNat? v
+    pure (n, v)
+  | _ => none
 
 def parseShipStep (t : String) : Option ShipStep :=
   if t = "rm" then some .rm else
-  match splitChar ':' t with
-  | ["s", k] => (parseBudget k).map fun b => .sync ⟨b, none⟩
-  | ["t", j] => (parseNat? j).map fun j => .sync ⟨none, some j⟩
+  if t = "N" then some .restart else
+  match splitChar '@' t with
+  | [core] =>
+    match splitChar ':' core with
+    | ["s", k] => (parseBudget k).map fun b => .sync ⟨b, none⟩ none
+    | ["t", j] => (parseNat? j).map fun j => .sync ⟨none, some j⟩ none
+    | ["L", v] => (parseNat? v).map .dyn
+    | ["SL", v] => (parseNat? v).map .setLabels
+    | _ => none
+  | [core, sw] => do
+    let sw ← parseSwitch sw
+    match splitChar ':' core with
+    | ["s", k] => (parseBudget k).map fun b => .sync ⟨b, none⟩ (some sw)
+    | ["t", j] => (parseNat? j).map fun j => .sync ⟨none, some j⟩ (some sw)
+    | _ => none
   | _ => none
 
 def showFile : Option (List Nat) → String
   | none => "none"
   | some ids => showNats "," ids
 
-def runShip (cfg : Shipper.Cfg) (locals : List Shipper.LBlock) : Shipper.State → List ShipStep → List String × Shipper.State
-  | st, [] => ([], st)
-  | st, .rm :: rest =>
-    let (outs, st') := runShip cfg locals ⟨st.bkt, none⟩ rest
+/-- `dyn`: value of the dynamic callback; `pinned`: label set installed by SetLabels on the instance -/
+def runShip (uc ooo : Bool) (locals : List Shipper.LBlock) :
+    Nat → Option Nat → Shipper.State → List ShipStep → List String × Shipper.State
+  | _, _, st, [] => ([], st)
+  | d, p, st, .rm :: rest =>
+    let (outs, st') := runShip uc ooo locals d p ⟨st.bkt, none, st.lbl⟩ rest
     ("rm" :: outs, st')
-  | st, .sync k :: rest =>
-    let r := Shipper.sync cfg locals k st
-    let (outs, st') := runShip cfg locals r.st rest
+  | _, p, st, .dyn v :: rest => runShip uc ooo locals v p st rest
+  | d, _, st, .setLabels v :: rest => runShip uc ooo locals d (some v) st rest
+  | d, _, st, .restart :: rest => runShip uc ooo locals d none st rest
+  | d, p, st, .sync f sw :: rest =>
+    let cfg : Shipper.Cfg := match p with
+      | some v => ⟨uc, ooo, v, none⟩
+      | none => ⟨uc, ooo, d, sw⟩
+    let r := Shipper.sync cfg locals f st
+    let d' := match sw with
+      | some (n, v) => if n ≤ r.trace.length then v else d
+      | none => d
+    let (outs, st') := runShip uc ooo locals d' p r.st rest
     let status := if r.ok then "ok" else "err"
     (s!"{status}[{",".intercalate (r.trace.map showOpB)}]file={showFile r.st.file}" :: outs, st')
 
+def showLbl (m : List (Nat × Nat)) (s : Bucket) (id : Nat) : String :=
+  if (get s (id, metaName)).isSome then
+    match Shipper.lookupL m id with
+    | some v => toString v
+    | none => "?"
+  else "-"
+
 def shipRun (cfg blocks steps : String) : String :=
-  match parseCfg cfg, (listOf ';' blocks).mapM parseLBlock, (listOf ';' steps).mapM parseShipStep with
-  | some cfg, some bs, some sts =>
+  match parseFlags cfg, (listOf ';' blocks).mapM parseLBlock, (listOf ';' steps).mapM parseShipStep with
+  | some (uc, ooo), some bs, some sts =>
     if sts.isEmpty then "bad-op" else
-    let (outs, st) := runShip cfg bs ⟨[], none⟩ sts
-    let listing := bs.map fun b => s!"b{b.id}\{{showListing st.bkt b.id}}"
+    let (outs, st) := runShip uc ooo bs 1 none ⟨[], none, []⟩ sts
+    let listing := bs.map fun b => s!"b{b.id}@{showLbl st.lbl st.bkt b.id}\{{showListing st.bkt b.id}}"
     " ".intercalate outs ++ " => " ++ " ".intercalate listing
   | _, _, _ => "bad-op"
 
